@@ -66,6 +66,10 @@ type scenario struct {
 	actions []action
 	seed    func() *ring.Desc // initial ring content, built inside the bubble (virtual time)
 	horizon time.Duration
+	// oneProcess: every lifecycler of the scenario is ONE process from start to end (no crash/restart inside the run, as
+	// in all C08 scenarios; C09 restarts processes under the same writer name): only then is "first write of the
+	// process" the first recorded write of that writer
+	oneProcess bool
 }
 
 type instance struct {
@@ -227,7 +231,7 @@ func monitor(sc scenario, st *Store, t0 time.Time) (key, what string) {
 			if a.State != b.State && !legalEdges[[2]ring.InstanceState{a.State, b.State}] {
 				return "illegal-edge", fmt.Sprintf("at +%v lifecycler %s published %s → %s", at, w.Writer, a.State, b.State)
 			}
-			if a.State == ring.LEAVING && b.State == ring.ACTIVE && wrote[w.Writer] > 1 && !externalEdit(sc, w.Writer) {
+			if sc.oneProcess && a.State == ring.LEAVING && b.State == ring.ACTIVE && wrote[w.Writer] > 1 && !externalEdit(sc, w.Writer) {
 				// "leaving to active" is a restart edge: legal only as the first write of a process that found its entry LEAVING
 				return "illegal-edge", fmt.Sprintf("at +%v lifecycler %s published LEAVING → ACTIVE in its write #%d (a restart edge: only the first write of a process may take it)", at, w.Writer, wrote[w.Writer])
 			}
@@ -561,6 +565,9 @@ func scenariosC08() []scenario {
 		{name: "three-joiners", lcs: []lcSpec{{id: "a", joinAfter: 1500 * time.Millisecond}, {id: "b", joinAfter: 1500 * time.Millisecond}, {id: "c", basic: true}}, horizon: 9 * time.Second},
 		{name: "no-heartbeat", lcs: []lcSpec{{id: "a", joinAfter: 1500 * time.Millisecond}, {id: "b", basic: true, noHeartbeat: true}}, actions: []action{{at: 6 * time.Second, kind: "stop", who: "b"}}, horizon: 12 * time.Second},
 		{name: "operator-edits-entry", lcs: []lcSpec{{id: "a"}}, actions: []action{{at: 2 * time.Second, kind: "external-edit", who: "a"}, {at: 3 * time.Second, kind: "ready", who: "a"}}, horizon: 12 * time.Second},
+	}
+	for k := range scs {
+		scs[k].oneProcess = true
 	}
 	return scs
 }
